@@ -82,8 +82,11 @@ WithD(s, d)        == [s EXCEPT !.d = d]     \* decoration: "comment" (trailing 
 
 Def(kind, name, params, body, methods) ==
   [kind |-> kind, name |-> name, params |-> params, body |-> body, methods |-> methods,
-   one |-> FALSE]     \* one: written on one line,  def f(x): <the single statement>
+   one |-> FALSE,     \* one: written on one line,  def f(x): <the single statement>
+   blk |-> FALSE]     \* blk: the definition sits in a module-level  if 1: ... else: zz = 1  block (its scope's
+                      \* parent is still the module; the else branch never runs)
 OneLine(f) == [f EXCEPT !.one = TRUE]
+InBlock(d) == [d EXCEPT !.blk = TRUE]
 Fn(name, params, body)     == Def("func", name, params, body, <<>>)
 Static(name, params, body) == Def("static", name, params, body, <<>>)
 Class(name, methods)       == Def("class", name, <<>>, <<>>, methods)
@@ -114,7 +117,7 @@ NestedDefs(body) == {body[i] : i \in {j \in DOMAIN body : body[j].k = "def"}}
 HasLocalFn(P, name) == \E b \in Bodies(P) : \E st \in NestedDefs(b) : st.s = name
 LocalFn(P, name) ==
   LET st == CHOOSE st \in UNION {NestedDefs(b) : b \in Bodies(P)} : st.s = name
-  IN [kind |-> "func", name |-> name, params |-> st.ps, body |-> st.b, methods |-> <<>>, one |-> FALSE]
+  IN [kind |-> "func", name |-> name, params |-> st.ps, body |-> st.b, methods |-> <<>>, one |-> FALSE, blk |-> FALSE]
 
 (* ------------------------------------------------------------------ *)
 (* Static types by naming convention of the pools (only used to tag   *)
@@ -395,11 +398,15 @@ TokFunc(f, c0) ==
 RECURSIVE TokMethods(_, _, _)
 TokMethods(ms, i, c) == IF i > Len(ms) THEN <<>> ELSE TokFunc(ms[i], c) \o TokMethods(ms, i + 1, c)
 
-TokDef(d, c) ==
+TokDef0(d, c) ==
   IF d.kind = "class"
   THEN <<Tk("class"), T(d.name, <<"class", d.name>>), Tk("("), Tk("object"), Tk(")"), Tk(":"), Tk("NL"), Tk("IN")>>
        \o TokMethods(d.methods, 1, [Ctx(c.mod, c.imp, d.name, "", {}) EXCEPT !.here = c.here]) \o <<Tk("DE")>>
   ELSE TokFunc(d, c)
+TokDef(d, c) ==
+  IF d.blk THEN <<Tk("if"), Tk("1"), Tk(":"), Tk("NL"), Tk("IN")>> \o TokDef0(d, c)
+                \o <<Tk("DE"), Tk("else"), Tk(":"), Tk("NL"), Tk("IN"), Tk("zz"), Tk("="), Tk("1"), Tk("NL"), Tk("DE")>>
+  ELSE TokDef0(d, c)
 
 RECURSIVE TokDefs(_, _, _)
 TokDefs(ds, i, c) == IF i > Len(ds) THEN <<>> ELSE TokDef(ds[i], c) \o TokDefs(ds, i + 1, c)
@@ -655,7 +662,10 @@ Refusable(q, P) ==
   \* a request for which no behaviour-preserving result exists in the fragment: it has to be
   \* refused.  LocalToField on a name the class already has; LocalToField on a local of a function
   \* nested in a method (it is not a local of a method: there is no object to hold the field)
-  q.kind = "ltf" /\ (q.host # "" \/ q.name \in ClassNames(P, q.cls))
+  \/ q.kind = "ltf" /\ (q.host # "" \/ q.name \in ClassNames(P, q.cls))
+  \* a global factory for a class that sits inside a compound statement: there is no place at module
+  \* level right after the class
+  \/ q.kind = "fac" /\ q.glob /\ DefOf(P, q.cls).blk
 
 Refactor(q, P) ==
   LET tdefs == [i \in DOMAIN P.defs |-> TrDef(q, P, P.defs[i])]
@@ -667,6 +677,7 @@ Refactor(q, P) ==
                                   THEN [tdefs[i] EXCEPT !.methods = @ \o <<Getter(q), Setter(q)>>]
                                   ELSE tdefs[i]],
                       !.a = ta, !.b = tb]
+       [] q.kind = "fac" /\ Refusable(q, P) -> P
        [] q.kind = "fac" ->
             LET ps == InitParams(P, q.cls)
                 body == <<Ret(Call(K(q.cls), VarsOf(ps)))>>
@@ -793,7 +804,9 @@ Variants(f) ==
                        Var(<<ClassC(<<MethM(MB3)>>), ClassD>>, "") >>
     [] f = "fac" -> << Var(<<ClassC(<<MethM(MB3)>>)>>, ""),
                        Var(<<ClassC(<<Fn("clone", <<"self">>, <<Ret(Call(K("C"), <<A(self, "f")>>))>>)>>),
-                             Fn("mk", <<"v">>, <<Ret(Call(K("C"), <<V("v")>>))>>)>>, "") >>
+                             Fn("mk", <<"v">>, <<Ret(Call(K("C"), <<V("v")>>))>>)>>, ""),
+                       \* the class inside a module-level if/else block
+                       Var(<<InBlock(ClassC(<<MethM(MB3)>>))>>, "") >>
     [] f = "mo"  -> << Var(<<ClassC(<<MethM(<<Asg("t", B("+", x, A(self, "f"))), Set(self, "f", B("*", t, I(2))),
                                              AugV("x", "+", I(1)), Ret(B("+", t, x))>>),
                                       Fn("n", <<"self">>, <<Ret(A(self, "g"))>>)>>),
@@ -926,6 +939,12 @@ PreB(f) == IF f = "enc" THEN <<Asg("o", NewC(4)), Asg("p", Call(K("D"), <<I(5)>>
 Post(f) == IF f = "enc" THEN <<Pr(<<A(o, "f"), A(o, "g"), A(A(p, "h"), "f"), A(p, "f")>>)>>
            ELSE <<Pr(<<A(o, "f"), A(o, "g")>>)>>
 
+\* Encapsulate, variants 2 and 3: module b ENDS with a write / an augmented write of the field (after
+\* the final print: with the layout without a final newline the statement ends where the file ends)
+LastB(f, v) == IF f = "enc" /\ v = 2 THEN <<Set(o, "f", I(8))>>
+               ELSE IF f = "enc" /\ v = 3 THEN <<Aug(o, "f", "+", I(1))>>
+               ELSE <<>>
+
 Snips(f, idxs) == Flat([i \in DOMAIN idxs |-> PoolOf(f)[idxs[i]].ss])
 \* module a can only have clients of C when C is defined there
 ClientsInA(f, v) == ~(f = "mm" /\ Variants(f)[v].bdefs # <<>>) /\ ~(f = "uf" /\ v = 3)
@@ -941,7 +960,8 @@ Build(f, v, im, ia, ib) ==
            EXCEPT !.bdefs = Variants(f)[v].bdefs]
      ELSE IF ~ClientsInA(f, v)
      THEN Prog(defs, <<>>, PreB(f) \o Snips(f, ib) \o Post(f), im, names)
-     ELSE Prog(defs, PreA(f) \o Snips(f, ia) \o Post(f), PreB(f) \o Snips(f, ib) \o Post(f), im, names)
+     ELSE Prog(defs, PreA(f) \o Snips(f, ia) \o Post(f), PreB(f) \o Snips(f, ib) \o Post(f) \o LastB(f, v), im, names)
+
 
 \* the optional features a program uses
 FeatsUsed(f, v, ia, ib) ==
